@@ -28,7 +28,8 @@ RULE = ("histories: every sequence up to length L1 over the 9-operation alphabet
         "on DictLoader; shorter bounds on FunctionLoader (uptodate = version check / None / always True / always "
         "False) and FileSystemLoader with os.utime-forced mtimes; layered loaders (FileSystemLoader with two search "
         "paths, ChoiceLoader of two DictLoaders) over {get, select, put / delete in layer 1 or layer 2}, where a "
-        "put into layer 1 shadows the template loaded from layer 2.  get alternates get_template / "
+        "put into layer 1 shadows the template loaded from layer 2; histories in which env.auto_reload is switched on / off "
+        "between requests.  get alternates get_template / "
         "get_or_select_template.  distinct = (loader kind, auto_reload, size, history); non-trivial = a get/select "
         "follows a put or delete of a name that was loaded before.")
 
@@ -36,7 +37,8 @@ NAMES = {1: "n1", 2: "n2", 3: "n3", 4: "n4"}
 ALPHA_FULL = ["g:1", "g:2", "s:1,2", "s:2,1", "p:1:1", "p:1:2", "p:2:2", "d:1", "d:2"]
 ALPHA_RED = ["g:1", "g:2", "p:1:2", "p:1:1", "d:1", "s:2,1"]
 ALPHA_3 = ["g:1", "g:2", "g:3", "p:1:2", "d:1"]
-ALPHA_4 = ["g:1", "g:2", "g:3", "g:4"]      # recency below capacity: sizes 2, 3, 4 over four names
+ALPHA_4 = ["g:1", "g:2", "g:3", "g:4"]
+ALPHA_TOG = ["g:1", "p:1:2", "d:1", "a:1", "a:0", "s:1,2"]      # env.auto_reload switched between requests      # recency below capacity: sizes 2, 3, 4 over four names
 INIT = {1: 1, 2: 1, 3: 1, 4: 1}
 INIT2 = {1: 3, 2: 3, 3: 3, 4: 3}          # layered kinds: everything starts in layer 2 (versions 3, 4); layer 1 uses versions 1, 2
 ALPHA_LAY = ["g:1", "p1:1:1", "d1:1", "p2:1:4", "d2:1", "s:1,2"]
@@ -154,27 +156,6 @@ class World:
 UPT = {"dict": "V", "fs": "V", "funcV": "V", "funcN": "N", "funcT": "T", "funcF": "F", "fs2": "V", "choice": "V"}
 
 
-def model_ops(kind, ops):
-    """layered operations become put / delete of the EFFECTIVE version in the model"""
-    if kind not in ("fs2", "choice"):
-        return list(ops)
-    layers = [dict(), dict(INIT2)]
-    out = []
-    for o in ops:
-        p = o.split(":")
-        if p[0] in ("p1", "p2", "d1", "d2"):
-            layer, n = int(p[0][1]) - 1, int(p[1])
-            if p[0][0] == "p":
-                layers[layer][n] = int(p[2])
-            else:
-                layers[layer].pop(n, None)
-            eff = layers[0].get(n, layers[1].get(n))
-            out.append(f"p:{n}:{eff}" if eff is not None else f"d:{n}")
-        else:
-            out.append(o)
-    return out
-
-
 def real_run(jinja2, kind, ar, size, ops, fsdir=None):
     """-> (result string in the driver's format, oracle failure or None)"""
     w = World(jinja2, kind, fsdir)
@@ -186,8 +167,15 @@ def real_run(jinja2, kind, ar, size, ops, fsdir=None):
     sticky = {}             # name -> object, for (b)
     flip = 0
     checks_current = ar and UPT[kind] in ("V", "F")
+    toggles = any(o.startswith("a:") for o in ops)
     for o in ops:
         p = o.split(":")
+        if p[0] == "a":
+            ar = int(p[1])
+            env.auto_reload = bool(ar)
+            checks_current = ar and UPT[kind] in ("V", "F")
+            res.append("U")
+            continue
         if p[0] in ("p1", "p2", "d1", "d2"):
             w.layer_op(int(p[0][1]) - 1, int(p[1]), int(p[2]) if p[0][0] == "p" else None)
             res.append("U")
@@ -242,7 +230,7 @@ def real_run(jinja2, kind, ar, size, ops, fsdir=None):
             fail = fail or f"{o}: cache size 0 returned an object seen before"
         if size > 0 and env.cache is not None and len(env.cache) > size:
             fail = fail or f"{o}: len(cache) = {len(env.cache)} exceeds the size {size}"
-        if not ar and size != 0:
+        if not ar and size != 0 and not toggles:
             # reference behaviour without auto_reload: an object that is still cached (unbounded cache: forever;
             # size n: among the n most recently used names) is returned as is, whatever happened to its source;
             # otherwise the first requested name that exists is loaded as a NEW object (evicting the least
@@ -293,6 +281,8 @@ def nontrivial(ops):
     changed = set()
     for o in ops:
         p = o.split(":")
+        if p[0] == "a":
+            continue
         if p[0] in "gs":
             ns = [int(x) for x in p[1].split(",")] if p[1] else []
             if any(n in changed for n in ns):
@@ -372,7 +362,7 @@ def run(ctx):
     three = list(histories(ALPHA_3, 3, L2))
     grid = [(s_, a_) for s_ in (0, 1, 2, -1) for a_ in (1, 0)]
     quick_grid = [(0, 1), (1, 1), (1, 0), (-1, 1), (-1, 0)]
-    for size, ar in (quick_grid if ctx.tier == "quick" else grid):
+    for size, ar in (quick_grid if ctx.tier == "quick" else [(0, 1), (1, 1), (1, 0), (2, 1), (2, 0), (-1, 1), (-1, 0)]):
         if True:
             for h in full:
                 cases.append(("dict", ar, size, h))
@@ -392,7 +382,7 @@ def run(ctx):
     short = list(histories(ALPHA_FULL, 0, L1 - 1))
     for kind in ("funcV", "funcN", "funcT", "funcF"):
         for size in ((0, 1, 2, -1) if kind == "funcV" else (1, -1)):
-            for ar in ((1, 0) if kind == "funcV" or ctx.tier != "quick" else (1,)):
+            for ar in ((1, 0) if kind == "funcV" else (1,)):
                 for h in short:
                     cases.append((kind, ar, size, h))
     fs_h = list(histories(ALPHA_RED, 0, L1)) + list(histories(ALPHA_3, 3, L1))
@@ -400,6 +390,11 @@ def run(ctx):
         if True:
             for h in fs_h:
                 cases.append(("fs", ar, size, h))
+    # auto_reload is a public attribute: histories in which it is switched between requests
+    tog = [h for h in histories(ALPHA_TOG, 2, L1) if any(o.startswith("a:") for o in h)]
+    for kind, size, ar in (("dict", 1, 0), ("dict", -1, 0), ("fs", -1, 0)) + ((("dict", 2, 1), ("fs", 1, 0), ("funcV", -1, 0)) if ctx.tier != "quick" else ()):
+        for h in tog:
+            cases.append((kind, ar, size, h))
     # layered loaders: FileSystemLoader with two search paths, ChoiceLoader of two DictLoaders; layer 1 shadows layer 2
     lay_h = list(histories(ALPHA_LAY, 0, L1))
     for kind in ("fs2", "choice"):
@@ -434,6 +429,7 @@ def run(ctx):
         shutil.rmtree(fsdir, ignore_errors=True)
         shutil.rmtree(fsdir + "2", ignore_errors=True)
 
+    run_race(ctx, jinja2)
     for size in (0, 1, 2, -1):
         for ar in (0, 1):
             ctx.case()
@@ -445,12 +441,91 @@ def run(ctx):
                 ctx.validated()
 
 
+def run_race(ctx, jinja2):
+    """a modification that lands BETWEEN the two file accesses of one FileSystemLoader.get_source call (read the contents /
+    take the mtime): whatever that request returns, the following requests must render the current source.  The
+    interleaving is made deterministic by wrapping, from outside, the `open` the loaders module sees and os.path.getmtime;
+    the writer fires right after the first of the two accesses has completed."""
+    import jinja2.loaders as L
+    d = os.path.join(ctx.bdir, "race")
+    for size in (-1, 1, 0):
+        shutil.rmtree(d, ignore_errors=True)
+        os.makedirs(d)
+        path = os.path.join(d, "n1")
+
+        def write(v):
+            with open(path, "w") as f:
+                f.write(src(1, v))
+            os.utime(path, (MT0 + 1000 * v, MT0 + 1000 * v))
+        write(1)
+        env = jinja2.Environment(loader=jinja2.FileSystemLoader(d), cache_size=size, auto_reload=True)
+        armed = [True]
+
+        def fire():
+            if armed[0]:
+                armed[0] = False
+                write(2)
+        real_open, real_getmtime = open, os.path.getmtime
+
+        class Proxy:
+            def __init__(self, f):
+                self._f = f
+
+            def read(self, *a):
+                data = self._f.read(*a)
+                fire()
+                return data
+
+            def __enter__(self):
+                self._f.__enter__()
+                return self
+
+            def __exit__(self, *a):
+                return self._f.__exit__(*a)
+
+        def gm(p):
+            r = real_getmtime(p)
+            if os.path.realpath(p) == os.path.realpath(path):
+                fire()
+            return r
+        L.open = lambda p, *a, **k: Proxy(real_open(p, *a, **k)) if os.path.realpath(p) == os.path.realpath(path) else real_open(p, *a, **k)
+        os.path.getmtime = gm
+        try:
+            try:
+                outs = [env.get_template("n1").render()]
+            except Exception as e:  # noqa
+                outs = ["X:" + type(e).__name__]
+        finally:
+            del L.open
+            os.path.getmtime = real_getmtime
+        for _ in range(2):
+            try:
+                outs.append(env.get_template("n1").render())
+            except Exception as e:  # noqa
+                outs.append("X:" + type(e).__name__)
+        case = {"probe": "race", "cache_size": size, "rendered": outs}
+        ctx.case(sample=case if size == -1 else None, key=("race", size))
+        ctx.count("race_inside_get_source")
+        if armed[0]:
+            ctx.broken.append("race probe: the writer never fired (get_source no longer reads / stats the file through open and os.path.getmtime)")
+        elif outs[0] not in ("n1v1", "n1v2") or outs[1:] != ["n1v2", "n1v2"]:
+            ctx.reject(case, f"a source change between reading the file and taking its mtime inside one get_source call: the following "
+                             f"requests rendered {outs[1:]} (current source 'n1v2'), the racing one {outs[0]!r}",
+                       "C25:change-between-read-and-stat-in-get_source")
+        else:
+            ctx.validated()
+    shutil.rmtree(d, ignore_errors=True)
+
+
 def replay(ctx, data):
     jinja2 = lib.use_repo_jinja()
     case = data.get("case")
     if data.get("kind") != "failing-input" or case is None:
         print("replay: this file names a broken theorem/correspondence, not an input:", data.get("broken"))
         return run(ctx)
+    if case.get("probe") == "race":
+        run_race(ctx, jinja2)
+        return
     if case.get("probe") == "swap":
         w = swap_probe(jinja2, case["cache_size"], case["auto_reload"])
         print("oracle:", w)
